@@ -5,6 +5,7 @@ import (
 	"fmt"
 	"sort"
 	"strings"
+	"sync"
 
 	"github.com/0chain/common/core/statecache"
 	"github.com/0chain/common/core/util"
@@ -35,6 +36,10 @@ func (o mop) String() string {
 		return "SaveChanges"
 	case 'H':
 		return "GetAllMissingNodes"
+	case 'X':
+		return "GetChanges"
+	case 'M':
+		return fmt.Sprintf("MergeMPTChanges(child %s)", o.P)
 	}
 	return "?"
 }
@@ -48,6 +53,7 @@ type c16 struct {
 }
 
 type mworld struct {
+	kids map[string]*util.MerklePatriciaTrie // children opened before the threads start (merge scenarios)
 	t    *util.MerklePatriciaTrie
 	db   util.NodeDB
 	save util.NodeDB
@@ -77,6 +83,18 @@ func (c c16) build() *mworld {
 		w.t = util.NewMerklePatriciaTrie(w.db, 1, t0.GetRoot(), statecache.NewEmpty())
 		if c.dropNode != "" {
 			dropLeaf(w.db, t0, c.dropNode)
+		}
+	}
+	for _, sc := range c.scripts {
+		for _, o := range sc {
+			if o.K == 'M' {
+				if w.kids == nil {
+					w.kids = map[string]*util.MerklePatriciaTrie{}
+				}
+				k := util.NewMerklePatriciaTrie(util.NewLevelNodeDB(util.NewMemoryNodeDB(), w.t.GetNodeDB(), false), w.t.GetVersion(), w.t.GetRoot(), statecache.NewEmpty())
+				_, _ = k.Insert(util.Path(o.P), &util.SecureSerializableValue{Buffer: []byte(o.V)})
+				w.kids[o.P] = k
+			}
 		}
 	}
 	return w
@@ -125,6 +143,25 @@ func (w *mworld) do(o mop) string {
 	case 'H':
 		ks, err := w.t.GetAllMissingNodes()
 		return fmt.Sprintf("%d/%v", len(ks), err)
+	case 'M':
+		// merge a child transaction trie that was opened (and filled) before the threads started
+		if w.kids == nil {
+			w.kids = map[string]*util.MerklePatriciaTrie{}
+		}
+		return fmt.Sprint(w.t.MergeMPTChanges(w.kids[o.P]))
+	case 'X':
+		// root, change set, delete set and start root must belong to one instant
+		root, changes, deletes, start := w.t.GetChanges()
+		var cs, ds []string
+		for _, c := range changes {
+			cs = append(cs, c.New.GetHash()[:8])
+		}
+		for _, d := range deletes {
+			ds = append(ds, d.GetHash()[:8])
+		}
+		sort.Strings(cs)
+		sort.Strings(ds)
+		return fmt.Sprintf("root=%x changes=%v deletes=%v start=%x", []byte(root)[:4], cs, ds, start)
 	}
 	return "?"
 }
@@ -165,17 +202,23 @@ func (c c16) scenario() sched.Scenario {
 		clock := 0
 		call, ret := map[opRef]int{}, map[opRef]int{}
 		res := map[opRef]string{}
+		var hmu sync.Mutex // harness bookkeeping only; never held across a library call
 		var bodies []func()
 		for th := range c.scripts {
 			th := th
 			bodies = append(bodies, func() {
 				for i, o := range c.scripts[th] {
 					r := opRef{th, i}
+					hmu.Lock()
 					clock++
 					call[r] = clock
-					res[r] = w.do(o)
+					hmu.Unlock()
+					out := w.do(o)
+					hmu.Lock()
+					res[r] = out
 					clock++
 					ret[r] = clock
+					hmu.Unlock()
 				}
 			})
 		}
@@ -256,6 +299,8 @@ func C16Scenarios() []sched.Scenario {
 			{name: "W||R-same-key", doc: "writer and reader of one key, reader reads twice", scripts: [][]mop{{{'I', "0b22", "x"}, {'D', "0b22", ""}}, {{'G', "0b22", ""}, {'G', "0b22", ""}}}},
 			{name: "W||Iterate", doc: "writer || full iteration", scripts: [][]mop{{{'I', "0a1d", "x"}, {'D', "1c00", ""}}, {{'T', "", ""}}}},
 			{name: "R||R-missing-node", doc: "two readers running into the same node that is absent from the store", dropNode: "0b22", scripts: [][]mop{{{'G', "0b22", ""}}, {{'G', "0b22", ""}, {'H', "", ""}}}},
+			{name: "Merge||Merge", doc: "two sibling transaction tries opened on the same root are merged concurrently: exactly one merge may succeed", scripts: [][]mop{{{'M', "0a1d", "x"}, {'G', "0a1d", ""}}, {{'M', "0a2b", "z"}, {'G', "0a2b", ""}}}},
+			{name: "W||GetChanges", doc: "writer || GetChanges (root, changes and deletes of one instant)", scripts: [][]mop{{{'I', "0a1d", "x"}, {'D', "0b22", ""}}, {{'X', "", ""}}}},
 			{name: "W||change-count", doc: "writer || GetChangeCount", scripts: [][]mop{{{'I', "0a1d", "x"}, {'I', "0a1e", "y"}}, {{'C', "", ""}, {'C', "", ""}}}},
 			{name: "W||Save||R", doc: "writer || SaveChanges || reader", scripts: [][]mop{{{'I', "0a1d", "x"}}, {{'S', "", ""}}, {{'G', "0a1d", ""}}}},
 			{name: "W||W||R", doc: "two writers on keys sharing a prefix || reader", scripts: [][]mop{{{'I', "0a1b", "x"}}, {{'D', "0a1c", ""}}, {{'G', "0a1b", ""}, {'G', "0a1c", ""}}}},
